@@ -284,7 +284,7 @@ var StructTypes = []reflect.Type{
 	T(CN1{}), T(CN2{}), T(NMapHolder{}),
 	T(ManyF{}), T(ManyL{}),
 	T(Node{}), T(FNode{}), T(Ping{}), T(Pong{}), T(ENode{}), T(DeepNil{}),
-	T(MapAndLists{}), T(Wrap{}), T(WrapList{}), T(PtrTime{}), T(Named{}), T(SelfAny{}), T(SelfAnyList{}),
+	T(MapAndLists{}), T(Wrap{}), T(WrapList{}), T(PtrTime{}), T(Named{}), T(SelfAny{}), T(SelfAnyList{}), T(PtrConts{}),
 }
 
 // TypeByName finds a zoo struct type.
@@ -500,4 +500,17 @@ type SelfAnyList struct {
 	L []SelfAnyList
 	M map[string]interface{}
 	P *SelfAny
+}
+
+// ---- pointers to containers and named slice types (the repository's own ref tests use both)
+
+type InnerList []*Inner
+
+type PtrConts struct {
+	Likes *InnerList
+	Marks *map[string]*Inner
+	Nums  *[]int32
+	Same  *map[string]*Inner
+	Tags  map[string]*Inner
+	IL    InnerList
 }
